@@ -551,13 +551,30 @@ func c16NewGen(c *Ctx) *c16Gen {
 				a += ":" + pick(r, c16Subs)
 			}
 		}
-		if r.IntN(12) == 0 && len(g.accounts) > 0 {
-			// the same account in another letter case: a distinct hledger account
+		if r.IntN(5) == 0 && len(g.accounts) > 0 {
+			// an existing account in another letter case (a distinct hledger account), as a
+			// whole, in its first letter, or in one segment only: names that share a prefix
+			// up to letter case
 			b := pick(r, g.accounts)
-			if r.IntN(2) == 0 {
+			switch r.IntN(4) {
+			case 0:
 				a = strings.ToUpper(b[:1]) + b[1:]
-			} else {
+			case 1:
 				a = strings.ToLower(b)
+			case 2:
+				a = strings.ToUpper(b)
+			default:
+				segs := strings.Split(b, ":")
+				k := r.IntN(len(segs))
+				if segs[k] == strings.ToLower(segs[k]) {
+					segs[k] = strings.ToUpper(segs[k])
+				} else {
+					segs[k] = strings.ToLower(segs[k])
+				}
+				a = strings.Join(segs, ":")
+				if r.IntN(2) == 0 {
+					a += ":" + pick(r, c16Subs)
+				}
 			}
 		}
 		if !seen[a] && c16FirstIsLetter(a) {
@@ -653,13 +670,16 @@ func (g *c16Gen) gap() string {
 	}
 }
 
+// indent: hledger accepts any indent of at least one blank or a tab.
 func (g *c16Gen) indent() string {
 	r := g.r
 	switch r.IntN(8) {
 	case 0:
 		return "\t"
-	case 1:
+	case 1, 2, 3:
 		return strings.Repeat(" ", 1+r.IntN(8))
+	case 4:
+		return pick(r, []string{" \t", "\t ", "  \t"})
 	default:
 		return "    "
 	}
@@ -773,8 +793,22 @@ func (g *c16Gen) fragment(name string) string {
 	r := g.r
 	rs := []rune(name)
 	var out []rune
-	switch x := r.IntN(20); {
-	case x < 13:
+	switch x := r.IntN(24); {
+	case x >= 20 && strings.Contains(name, ":"):
+		// ends in a colon: a parent with its colon, a single inner or last segment (or a prefix
+		// of one) followed by a colon
+		segs := strings.Split(name, ":")
+		switch r.IntN(3) {
+		case 0:
+			k := 1 + r.IntN(len(segs)-1)
+			out = []rune(strings.Join(segs[:k], ":") + ":")
+		case 1:
+			out = []rune(pick(r, segs) + ":")
+		default:
+			sg := []rune(pick(r, segs))
+			out = append(sg[:r.IntN(len(sg)+1)], ':')
+		}
+	case x < 13 || x >= 20:
 		out = rs[:r.IntN(len(rs)+1)]
 	case x < 15:
 		out = rs
@@ -835,18 +869,22 @@ func (g *c16Gen) focusLine() c16Focus {
 		pre := g.indent()
 		mark := ""
 		switch r.IntN(12) {
-		case 0:
-			mark = pick(r, []string{"* ", "! "})
-		case 1:
-			mark = "("
+		case 0, 1:
+			mark = pick(r, []string{"* ", "! ", "*", "!  "})
 		case 2:
+			mark = "("
+		case 3:
 			mark = "["
+		case 4:
+			mark = pick(r, []string{"* ", "! "}) + pick(r, []string{"(", "["})
 		}
 		frag := g.fragment(c16Skew(r, g.accounts))
 		line := pre + mark + frag
 		s := utf16Len(pre + mark)
 		sp := c16Span{K: "account", S: s, E: s + utf16Len(frag), M: s}
-		if strings.ContainsAny(frag, ";\t") || strings.HasPrefix(frag, " ") || strings.Contains(frag, "  ") {
+		// a fragment that itself starts with a mark, a bracket or a blank is not the start of a name
+		if strings.ContainsAny(frag, ";\t") || strings.Contains(frag, "  ") ||
+			(frag != "" && strings.ContainsRune(" *!([", rune(frag[0]))) {
 			return c16Focus{line, nil, "posting.account.nospan"}
 		}
 		if r.IntN(4) == 0 {
@@ -882,11 +920,14 @@ func (g *c16Gen) focusLine() c16Focus {
 		pre := g.date() + " "
 		kind := "header.payee"
 		switch r.IntN(10) {
-		case 0:
-			pre += pick(r, []string{"* ", "! ", "*  "})
+		case 0, 1:
+			pre += pick(r, []string{"* ", "! ", "*  ", "*"})
 			kind = "header.payee.status"
-		case 1:
-			pre += "(" + pick(r, []string{"123", "a b"}) + ") "
+		case 2:
+			pre += "(" + pick(r, []string{"123", "a b", "", "INV-7*"}) + ")" + pick(r, []string{" ", " ", "", "  "})
+			kind = "header.payee.code"
+		case 3:
+			pre += pick(r, []string{"* ", "! "}) + "(" + pick(r, []string{"123", "a b"}) + ") "
 			kind = "header.payee.code"
 		}
 		frag := g.fragment(c16Skew(r, g.payees))
